@@ -1,0 +1,10 @@
+//go:build !verif
+
+package mailbox
+
+// vtrace is the verification trace hook. Without the verif build tag it is an
+// empty function that the compiler removes.
+func vtrace(src any, ev string, kv ...int) {}
+
+// vtraceCipher reports a cipher state about to be used.
+func vtraceCipher(c *cipherState, ev string) {}
